@@ -204,3 +204,42 @@ declare !dbg !10 void @decl()
 !8 = !{i32 2, !"Debug Info Version", i32 3}
 !7 = !DIFile(filename: "d.c", directory: "/x", checksumkind: CSK_SHA256, checksum: "0123456789012345678901234567890123456789012345678901234567890123")
 !md = !{!7}
+;;; ATOM md/di-expression-numbered-refs
+@g = global i32 0, !dbg !0
+@h = global i32 0, !dbg !9
+@arr = global [4 x i32] zeroinitializer, !dbg !20
+
+define void @f(i32 %x) !dbg !12 {
+  call void @llvm.dbg.value(metadata i32 %x, metadata !15, metadata !8), !dbg !16
+  call void @llvm.dbg.value(metadata i32 %x, metadata !15, metadata !DIExpression()), !dbg !16
+  ret void, !dbg !16
+}
+
+declare void @llvm.dbg.value(metadata, metadata, metadata)
+
+!llvm.dbg.cu = !{!2}
+!llvm.module.flags = !{!10, !11}
+
+!0 = !DIGlobalVariableExpression(var: !1, expr: !8)
+!1 = distinct !DIGlobalVariable(name: "g", scope: !2, file: !3, line: 1, type: !7, isLocal: false, isDefinition: true)
+!2 = distinct !DICompileUnit(language: DW_LANG_C99, file: !3, producer: "p", isOptimized: false, runtimeVersion: 0, emissionKind: FullDebug, enums: !4, globals: !5)
+!3 = !DIFile(filename: "a.c", directory: "/")
+!4 = !{}
+!5 = !{!0, !9, !20}
+!6 = distinct !DIGlobalVariable(name: "h", scope: !2, file: !3, line: 2, type: !7, isLocal: false, isDefinition: true)
+!7 = !DIBasicType(name: "int", size: 32, encoding: DW_ATE_signed)
+!8 = !DIExpression(DW_OP_plus_uconst, 4, DW_OP_stack_value)
+!9 = !DIGlobalVariableExpression(var: !6, expr: !8)
+!10 = !{i32 2, !"Dwarf Version", i32 4}
+!11 = !{i32 2, !"Debug Info Version", i32 3}
+!12 = distinct !DISubprogram(name: "f", scope: !3, file: !3, line: 3, type: !13, spFlags: DISPFlagDefinition, unit: !2, retainedNodes: !4)
+!13 = !DISubroutineType(types: !14)
+!14 = !{null, !7}
+!15 = !DILocalVariable(name: "x", arg: 1, scope: !12, file: !3, line: 3, type: !7)
+!16 = !DILocation(line: 3, column: 1, scope: !12)
+!17 = !DIExpression(DW_OP_push_object_address, DW_OP_deref)
+!18 = !DICompositeType(tag: DW_TAG_array_type, baseType: !7, size: 128, elements: !19, dataLocation: !17, associated: !17, allocated: !8, rank: !8)
+!19 = !{!22}
+!20 = !DIGlobalVariableExpression(var: !21, expr: !DIExpression())
+!21 = distinct !DIGlobalVariable(name: "arr", scope: !2, file: !3, line: 4, type: !18, isLocal: false, isDefinition: true)
+!22 = !DISubrange(lowerBound: !17, upperBound: !8, stride: !17)
